@@ -22,6 +22,7 @@ import json
 
 import egsim  # noqa: F401
 from egsim import engine, gen
+from egsim.seams import InjectedFault
 from edgegraph.structure import singleton
 
 CLASS_NAMES = ["A", "A1", "B", "C", "D", "E", "F"]
@@ -72,6 +73,9 @@ def make_classes(hook=None):
             if fn is not None:
                 hook["fn"] = None  # one shot
                 fn(self)
+            if hook.get("raise"):
+                hook["raise"] = False
+                raise InjectedFault("__init__ failed")
 
         d = {"__init__": __init__, "__qualname__": name}
         d.update(extra)
@@ -168,6 +172,8 @@ class C17(engine.Property):
         "user-code-during-construction:drop",
         "falsy-instance-class-used",
         "unkeyable-arguments",
+        "construction-failed-in-init",
+        "arguments-shaped-like-another-call's-key",
     ]
 
     def make_config(self, rng):
@@ -188,6 +194,7 @@ class C17(engine.Property):
             "max_args": rng.choice([1, 1, 2, 3]),
             "p_during": rng.choice([0.0, 0.0, 0.15, 0.4]),
             "p_unkeyable": rng.choice([0.0, 0.0, 0.05, 0.1]),
+            "p_init_fails": rng.choice([0.0, 0.0, 0.08, 0.2]),
             "weights": gen.swarm_weights(
                 rng,
                 ["construct", "add_mapping", "drop", "check", "get_all", "clear"],
@@ -204,6 +211,14 @@ class C17(engine.Property):
         live = []
         for c in cfg["classes"]:
             live.extend(st.keyargs[c].values())
+        with_kw = [x for x in live if x[1]]
+        if with_kw and cls not in ("D", "E") and rng.random() < 0.06:
+            # positional arguments shaped like the key of another call:
+            # (its positionals, the canonical text of its keywords)
+            a, kw = rng.choice(with_kw)
+            text = json.dumps({k: decode_arg(v) for k, v in kw}, sort_keys=True)
+            st.stats["probe:arguments-shaped-like-another-call's-key"] += 1
+            return [list(a), text], []
         if live and rng.random() < 0.45:
             args, kwargs = rng.choice(live)
             args = list(args)
@@ -249,6 +264,8 @@ class C17(engine.Property):
                     op["new"] = st.namer.new("i")
                     if rng.random() < cfg.get("p_during", 0.0):
                         op["during"] = self._during(rng, cfg, st, op)
+                    elif rng.random() < cfg.get("p_init_fails", 0.0):
+                        op["init_fails"] = True
                 return op
             if kind == "add_mapping" and st.inst:
                 obj = rng.choice(sorted(st.inst))
@@ -301,6 +318,23 @@ class C17(engine.Property):
                     s["probe:user-code-during-construction:" + during["op"]] += 1
                     s["fault:reentrant-call-during-init"] += 1
                     st.hook["fn"] = lambda _self, d=during: self._nested(st, d)
+            if op.get("init_fails") and live is None:
+                # the user's __init__ raises: a construction that fails half-way
+                # must leave no mapping behind, and the next attempt constructs
+                s["fault:init-raises"] += 1
+                s["probe:construction-failed-in-init"] += 1
+                st.hook["raise"] = True
+                try:
+                    klass(*args, **kwargs)
+                    out = {"ret": "returned"}
+                except InjectedFault:
+                    out = {"exc": "InjectedFault"}
+                except Exception as exc:  # pylint: disable=broad-except
+                    out = {"exc": type(exc).__name__}
+                st.hook["raise"] = False
+                if "exc" not in out:
+                    return out, engine.viol("C17/failed-init-swallowed", {"op": op})
+                return out, self._requery_absent(st, op, cls, klass, args, kwargs) or self._requery(st, op)
             try:
                 obj = klass(*args, **kwargs)
             except Exception as exc:  # pylint: disable=broad-except
@@ -525,6 +559,25 @@ class C17(engine.Property):
                     if other == key and other[0] is not key[0]:
                         s["probe:equal-values-distinct-objects"] += 1
                         break
+
+    def _requery_absent(self, st, op, cls, klass, args, kwargs):
+        """After a failed construction the key must not be mapped."""
+        try:
+            got = singleton.check_semi_singleton_entry_exists(klass, *args, **kwargs)
+            listed = list(singleton.get_all_semi_singleton_instances(klass))
+        except Exception as exc:  # pylint: disable=broad-except
+            return engine.viol("C17/requery-raised", {"after": op, "exc": type(exc).__name__})
+        if got is not None:
+            return engine.viol(
+                "C17/failed-construction-left-a-mapping", {"op": op, "got": st.lab(got)}
+            )
+        want = sorted(set(st.model[cls].values()))
+        if sorted({st.lab(o) for o in listed}) != want:
+            return engine.viol(
+                "C17/failed-construction-left-an-instance-listed",
+                {"op": op, "expected": want, "got": sorted({st.lab(o) for o in listed})},
+            )
+        return None
 
     def _requery(self, st, op):
         """No operation on one class changes any class's model-predicted answers."""
